@@ -753,6 +753,43 @@ func TestB2C08Hostile(t *testing.T) {
 			bodies = append(bodies, m)
 		}
 	}
+	// LZW: the code table filled without a clear code, then every interesting code value
+	for _, early := range []int{0, 1} {
+		for _, last := range []int{4095, 4094, 4093, 4096 - 2 - early, 258, 2000} {
+			var out []byte
+			var acc uint32
+			nb := uint(0)
+			width, hi, overflow := uint(9), 257, 512
+			emit := func(code int) {
+				acc |= uint32(code) << (32 - width - nb)
+				nb += width
+				for nb >= 8 {
+					out = append(out, byte(acc>>24))
+					acc <<= 8
+					nb -= 8
+				}
+				hi++
+				if hi+early >= overflow {
+					if width >= 12 {
+						hi--
+					} else {
+						width++
+						overflow <<= 1
+					}
+				}
+			}
+			for i := 0; i < 3900; i++ {
+				emit((i * 7) % 256)
+			}
+			emit(last)
+			emit(last)
+			emit(257)
+			if nb > 0 {
+				out = append(out, byte(acc>>24))
+			}
+			bodies = append(bodies, out)
+		}
+	}
 	bodies = append(bodies, nil, []byte{0}, bytes.Repeat([]byte{0xff}, 300), bytes.Repeat([]byte{0x80, 0x00}, 200), []byte("~>"), []byte(">"), bytes.Repeat([]byte{0x00, 0x10, 0x01}, 100))
 	for _, name := range names {
 		for _, d := range dicts {
